@@ -44,13 +44,14 @@ PLGlob(c)    == IF c = "cw" THEN {"plcwG"} ELSE {}
 PostLogoutOK(c, u) == u \in Reg[c].postLogout \cup PLGlob(c)
 
 \* Credential presentations. kind: none | basic | post | assertion ; secret: right | wrong ;
-\* key: own | foreign (assertion naming the caller as issuer but signed with another client's key)
+\* key: own | foreign (assertion naming the caller as issuer but signed with a key registered for nobody, under the caller's key id)
+\*      | sibling (... signed with the key of ANOTHER registered client whose key id equals the caller's; that client authenticated before)
 \* alias: "" or a second client id sent as form parameter client_id next to the Basic credentials of the caller
 \* (a request that names two clients; the authenticated one is the caller)
 Creds == [kind : {"none"}, secret : {"none"}, key : {"none"}, alias : {""}]
    \cup  [kind : {"basic", "post"}, secret : {"right", "wrong"}, key : {"none"}, alias : {""}]
    \cup  [kind : {"basic"}, secret : {"right"}, key : {"none"}, alias : {"cw", "cx"}]
-   \cup  [kind : {"assertion"}, secret : {"none"}, key : {"own", "foreign"}, alias : {""}]
+   \cup  [kind : {"assertion"}, secret : {"none"}, key : {"own", "foreign", "sibling"}, alias : {""}]
 
 \* "authenticated as - or, for public clients, identifies as" (C04, C07): the proof fits the registration
 AuthOK(c, cred) ==
